@@ -9,7 +9,9 @@ from hypothesis import strategies as st
 from .. import absval, gens, msgcheck, rfc4515
 from ..engine import QUICK, THOROUGH, Ctx, Part, Property, Violation
 
-EDIT_ALPHABET = list("()&|!=*\\:;~<>.- \n\r\t\x00\x7fa01é\udc80\udcff'\",\ud800\udc00\u0663\uff11\u00b2\u0301\u212b\u00df")
+EDIT_ALPHABET = list("()&|!=*\\:;~<>.- \n\r\t\x00\x7fa01é\udc80\udcff'\",\ud800\udc00\u0663\uff11\u00b2\u0301\u212b\u00df"
+                     # the non-ASCII characters that match [a-z] / [A-Z] under re.IGNORECASE, a full-width letter, NEL, NBSP
+                     "\u212a\u017f\u0130\u0131\uff21\x85\xa0\x1f")
 _ALPHA = st.one_of(
     st.sampled_from(list("()&|!=*\\:;~<>.-")),
     st.sampled_from(list("()&|!=*\\:;~<>.- \n\r\t\x00\x7f")),
@@ -17,6 +19,7 @@ _ALPHA = st.one_of(
     st.sampled_from(["\udc80", "\udcff", "\udcc3", "é", "€", "\U0001f600", "\ud800", "\udbff", "\udc00", "\udc7f", "\udfff"]),
     st.characters(),
     st.sampled_from(gens.NORMALISATION_CHARS),
+    st.sampled_from(gens.BOUNDARY_CHARS),
 )
 
 
